@@ -26,6 +26,16 @@ class Legacy(pipeline.Module):
             dict(name="skel", consts='  Mode = "skel"\n  MaxLen = 0\n  Chains = {}'),
         ]
 
+    def design_proofs(self, prop, tier, sc):
+        # the chain for any length N: counts instead of sequences, every way of ending chosen nondeterministically
+        return vlib.apalache_suite(sc.sub("apalache"), "LegacyInd",
+                                   [("Init => IndInv", "Init", "IndInv", 0),
+                                    ("IndInv /\\ Next => IndInv'", "IndInit", "IndInv", 1),
+                                    ("IndInv => Complete", "IndInit", "Complete", 0),
+                                    ("Variant (every execution advances the chain or ends it)", "IndInit", "Variant", 1)],
+                                   ("shown' = IF runs THEN nacc ELSE shown", "shown' = IF runs THEN pos ELSE shown"),
+                                   cinit="ConstInit")
+
     def driver_args(self, prop, tier, sd, scen, trace):
         return ["legacy", "-in", scen, "-out", trace]
 
